@@ -80,9 +80,12 @@ IfRangeCases(u) ==
       m \in {"get", "head"}, et \in ETags, mt \in MTimes, ir \in IfRanges, r \in IfRangeRanges}
 
 G == [k |-> "garbage"]
-EnvTagLists == {None, G, [k |-> "star"], [k |-> "list", tags |-> <<Tag(FALSE, E)>>],
-                [k |-> "list", tags |-> <<Tag(FALSE, Z)>>]}
-EnvDates == {None, G, [k |-> "date", s |-> 9], [k |-> "date", s |-> 11]}
+EnvTagLists == IF MaxTags >= 2
+               THEN {None, G, [k |-> "star"], [k |-> "list", tags |-> <<Tag(FALSE, E)>>],
+                     [k |-> "list", tags |-> <<Tag(FALSE, Z)>>]}
+               ELSE {None, G, [k |-> "list", tags |-> <<Tag(FALSE, Z)>>]}
+EnvDates == IF MaxTags >= 2 THEN {None, G, [k |-> "date", s |-> 9], [k |-> "date", s |-> 11]}
+            ELSE {None, G, [k |-> "date", s |-> 9]}
 EnvCases(u) ==
   {[mclass |-> m, ent |-> Ent(N(L), et, mt, 1),
     abs |-> [range |-> r, ifr |-> ir, im |-> im, inm |-> inm, ims |-> ims, ius |-> ius]] :
@@ -209,7 +212,7 @@ DoPoll ==
               hint == ImplHint(ms.ib)
               stp == ImplPoll(ms.ib, it, HdrLenM)
               p == [lo |-> hint.lo, up |-> hint.up, eos |-> ImplEos(ms.ib), res |-> stp.res, n |-> stp.n,
-                    env |-> env]
+                    env |-> env, nexts |-> <<>>]
               bs2 == Observe(ms.bs, p, ms.isGet)
               \* token of the delivered frame
               fromStream == pollsStream /\ it.k = "yield" /\ stp.res = "data"
